@@ -12,7 +12,8 @@ LEVEL = 'proof'
 RULE = ('system: generated projects (random names; executables, shared/static libraries with shared object files, find_files over '
         'nested directories, install, pkg_config, packages, options, tests, commands, aliases, build steps) configured by the real '
         'bfg9000 in contexts (hash seed x invocation directory x build-dir spelling x configure form x unrelated environment x '
-        'environment order x pre-existing build dir); a case = one (project, context, backend) configure compared file by file '
+        'environment order x pre-existing build dir x regeneration in place: bfg9000 regenerate / regenerate --lazy after only '
+        'the modification times of the searched directories or of build.bfg moved); a case = one (project, context, backend) configure compared file by file '
         'with the baseline of the same absolute directories; non-trivial = context differs from the baseline in at least one '
         'dimension; W: lists over a small alphabet with many duplicates (uniques), (cwd, spelling) pairs with . and .. '
         'components (abspath), membership/emit scripts (Makefile bookkeeping)')
@@ -412,7 +413,15 @@ MOPACK_STUB = ('#!/bin/sh\n# stand-in for `mopack linkage --json NAME`: resolve 
                'for a; do n=$a; done\n'
                'printf \'{"name": "%s", "type": "system", "pcnames": ["%s"], "pkg_config_path": []}\\n\' "$n" "$n"\n')
 PRIMARY_NAMES = ('Makefile', 'build.ninja', 'compile_commands.json')
-BASE_CTX = {'seed': '0', 'cwd': 'src', 'spell': 'abs', 'form': 'into', 'env_extra': 0, 'env_shuffle': 0, 'keep': False}
+BASE_CTX = {'seed': '0', 'cwd': 'src', 'spell': 'abs', 'form': 'into', 'env_extra': 0, 'env_shuffle': 0, 'keep': False,
+            'regen': ''}
+# regen: what happens to the configured build directory before its files are read (same tree, same saved configuration):
+#   'full'       bfg9000 regenerate BUILD
+#   'lazy-dirs'  the modification time of every searched directory moves forward (nothing else changes), then the
+#                backend's own regeneration command  bfg9000 regenerate --lazy BUILD  (what make / ninja run when a directory
+#                listed in .bfg_find_deps is newer than the build file)
+#   'lazy-script' the same after the modification time of build.bfg moved forward (the script is really re-run)
+REGEN_KINDS = ('full', 'lazy-dirs', 'lazy-script')
 
 
 def is_primary(rel):
@@ -482,12 +491,41 @@ def run_context(root, ctx, backend, timeout=180):
         random.Random(ctx['env_shuffle']).shuffle(items)
         e = dict(items)
     rc, out = project.run_bfg(args, cwd=cwd, env=e, timeout=timeout)
+    if rc == 0 and ctx.get('regen'):
+        rc, out = regenerate_in_place(src, build, cwd, ctx, e, timeout)
     files = {}
     for d, _, fns in os.walk(build):
         for fn in fns:
             p = os.path.join(d, fn)
             files[os.path.relpath(p, build)] = open(p, 'rb').read()
     return rc, out[-1500:], files
+
+
+def searched_dirs(build):
+    """the directories named by .bfg_find_deps (first line: TARGET: dir dir ...; blanks inside names are escaped)"""
+    p = os.path.join(build, '.bfg_find_deps')
+    if not os.path.exists(p):
+        return []
+    head = parse_depfile(open(p, 'rb').read())
+    return [d.replace('\\', '') for d in head[1]]
+
+
+def regenerate_in_place(src, build, cwd, ctx, e, timeout):
+    """The second half of a 'regen' context: the tree and the saved configuration stay the same, only modification times
+    move; then the regeneration command runs in the context's environment and directory."""
+    import time
+    how = ctx['regen']
+    time.sleep(0.02)
+    if how == 'lazy-dirs':
+        dirs = [d for d in searched_dirs(build) if os.path.isdir(d)]
+        if len(dirs) < 2:
+            return 1, 'harness: expected several searched directories in .bfg_find_deps, found %r' % (dirs,)
+        for d in dirs:
+            os.utime(d, None)
+    elif how == 'lazy-script':
+        os.utime(os.path.join(src, 'build.bfg'), None)
+    args = ['regenerate'] + (['--lazy'] if how.startswith('lazy') else []) + [spell(build, cwd, ctx['spell'])]
+    return project.run_bfg(args, cwd=cwd, env=e, timeout=timeout)
 
 
 def parse_depfile(data):
@@ -562,7 +600,8 @@ def compare_root(rep, pdesc, root, res):
         replay = {'project': pdesc, 'context': ctx, 'backend': backend}
         if rc != 0 or not any(n in got for n in ('Makefile', 'build.ninja')):
             bad += 1
-            rep.fail('configure failed (rc %d) in context %r (%s): %s' % (rc, ctx, backend, out[-300:]), replay,
+            rep.fail('%s failed (rc %d) in context %r (%s): %s' % (
+                'configure, or the regeneration after it,' if ctx.get('regen') else 'configure', rc, ctx, backend, out[-300:]), replay,
                      classes=('configure-fails:' + '+'.join(dims),))
             continue
         if backend not in base:
@@ -645,6 +684,7 @@ def contexts(rng, tier, n_seeds):
         dict(form='configure-src', cwd='build', spell='rel-noisy'),
         dict(env_extra=5), dict(env_shuffle=7), dict(env_extra=3, env_shuffle=11),
         dict(keep=True), dict(keep=True, cwd='root', spell='rel'), dict(spell='abs-dslash'),
+        dict(regen='lazy-dirs'), dict(regen='full'), dict(regen='lazy-script'), dict(regen='lazy-dirs', cwd='else', spell='rel'),
     ]
     for i, c in enumerate(combos):
         cx.append(dict(BASE_CTX, seed=seeds[(i + 1) % len(seeds)] if i % 2 else '0', **c))
